@@ -167,6 +167,7 @@ func (w *world) base(uopt2 string) {
 		DebtCeiling: sdk.NewInt(1000000000000), DebtFloor: sdk.NewInt(1000000), MinCr: dec("1.5"), PairName: "CMDX-B",
 		AssetOutOraclePrice: true, AssetOutPrice: 1000000, MinUsdValueLeft: 1000000}), "ext pair")
 
+	w.must(w.App.Rewardskeeper.WhitelistAppIDVault(w.Ctx, w.app["harbor"]), "vault interest whitelist") // stability fee accrues
 	w.whitelist("harbor", true, true)
 	w.whitelist("commodo", true, false)
 	w.App.NewaucKeeper.SetAuctionParams(w.Ctx, auctionsV2types.AuctionParams{AuctionDurationSeconds: 3600, Step: dec("0.1"),
@@ -266,4 +267,14 @@ func (w *world) liquidity(lifespan time.Duration) {
 		dec("1.05"), sdk.NewInt(3000000), lifespan), "sell order (rests)")
 	w.deliver(liquiditytypes.NewMsgLimitOrder(cs, w.Users["u4"], 1, liquiditytypes.OrderDirectionBuy, coin("uasset2", 600000), "uasset1",
 		dec("0.95"), sdk.NewInt(500000), lifespan), "buy order (rests)")
+}
+
+// pairID finds the lend pair (collateral asset -> borrowed asset of pool).
+func (w *world) pairID(in, out, outPool uint64) uint64 {
+	for _, p := range w.App.LendKeeper.GetLendPairs(w.Ctx) {
+		if p.AssetIn == in && p.AssetOut == out && p.AssetOutPoolID == outPool {
+			return p.Id
+		}
+	}
+	panic("lend pair not found")
 }
